@@ -33,6 +33,7 @@ type zvC22Remote struct {
 	Hold    uint16 `json:"hold"`
 	AP      byte   `json:"addpath_sr"` // 0 none, 1 receive, 2 send, 3 both (IPv4 unicast)
 	Roles   []byte `json:"roles"`      // role capability values sent (RFC numbering)
+	Pack    string `json:"capability_packaging,omitempty"` // "" one Capabilities parameter | split | split-rev (one parameter per capability)
 }
 
 type zvC22Case struct {
@@ -86,6 +87,7 @@ func (c zvC22Case) open() zvwOpen {
 	for _, r := range c.R.Roles {
 		o.Caps = append(o.Caps, zvwCapRole(r))
 	}
+	o.Pack = c.R.Pack
 	return o
 }
 
@@ -207,6 +209,12 @@ func zvC22Remotes(l zvC22Local, thorough bool) []zvC22Remote {
 									}
 								}
 								rs = append(rs, zvC22Remote{Version: ver, AS2: as2, Cap4: cap4, ID: id, Hold: h, AP: ap, Roles: roles})
+								// the same capabilities spread over several Capabilities optional parameters (RFC 5492)
+								if ver == 4 && id == "other" && (h == 90 || h == 3) && (len(roles) > 0 || ap != 0) && (cap4 != "absent" || len(roles) > 1 || (len(roles) > 0 && ap != 0)) {
+									for _, pk := range []string{"split", "split-rev"} {
+										rs = append(rs, zvC22Remote{Version: ver, AS2: as2, Cap4: cap4, ID: id, Hold: h, AP: ap, Roles: roles, Pack: pk})
+									}
+								}
 							}
 						}
 					}
@@ -376,7 +384,7 @@ func TestVerifC22(t *testing.T) {
 	r := vh.Start(t, "C22")
 	defer r.Finish()
 	r.Rule("cross product of the peer's OPEN (version x 2-octet AS {configured, other, AS_TRANS} x 4-octet capability {absent, configured, other} x identifier {0, ours, other} x hold time {0,1,2,3,4,90,65535} " +
-		"x add-path {none,recv,send,both} x role capabilities) with local configurations (iBGP/eBGP, 2-/4-octet peer AS, hold 3/90, add-path recv/send, role/strict); every case runs the real FSM from OpenSent under the virtual runtime; " +
+		"x add-path {none,recv,send,both} x role capabilities x capability packaging {one Capabilities parameter, one parameter per capability in either order}) with local configurations (iBGP/eBGP, 2-/4-octet peer AS, hold 3/90, add-path recv/send, role/strict); every case runs the real FSM from OpenSent under the virtual runtime; " +
 		"non-trivial = cases in which the session was established and the negotiated values were compared")
 	r.Require("second_session_cases", "ref_rejects", "established", "addpath_rx_on", "addpath_tx_on", "asn4_on", "ref_rejects:hold time", "ref_rejects:peer AS", "ref_rejects:role pair")
 	if r.IsReplay() {
